@@ -32,8 +32,15 @@ import traceback
 WATCHDOG_S = 25
 
 
+SLOW = False
+
+
 def scenario():
     from replay.universe import A, K
+    if SLOW:
+        # tasks that are still executing when the interrupt arrives (process backends): three ready tasks for two workers
+        # (the task that has to wait for a free worker, and is therefore started from wait(), runs longer than the others)
+        return [K('s1', (), 'slow'), A('s2', (), 'slow'), K('s3', (), 'slower'), K('s4', (K('s1', (), 'slow'),), 'slow')]
     d1, d2 = K('d1'), A('d2')
     return [K('t1', (d1, d2)), A('t2', (d2,)), K('t3'), K('t4', (d1,))]
 
@@ -53,7 +60,9 @@ def one_run(kind, inject=None, record=None, second=None, occurrence=1):
         if not fn.startswith(root):
             return None
         if event == 'line' and threading.get_ident() == main and state.get('armed'):
-            key = (os.path.relpath(fn, root), frame.f_lineno)
+            # a point = (file, line, calling function): the same line reached through another caller (e.g. _start_processes
+            # from submit() and from wait()) is a different interrupt instant
+            key = (os.path.relpath(fn, root), frame.f_lineno, frame.f_back.f_code.co_name if frame.f_back is not None else '')
             if record is not None:
                 record.append(key)
             n = state['count'][key] = state['count'].get(key, 0) + 1
@@ -73,6 +82,22 @@ def one_run(kind, inject=None, record=None, second=None, occurrence=1):
 
     orig_start = multiprocessing.process.BaseProcess.start
     orig_rolt = serial_mod.run_or_load_task
+    # CPython switches tracing OFF when a trace function raises.  The coordinator's handler calls runner.cancel() first: the
+    # tracer is re-armed there (for the frames already on the stack too), so that a SECOND interrupt can be injected.
+    import labtech.runners.process as process_mod
+    orig_cancels = {cls: cls.cancel for cls in (process_mod.ProcessRunner, serial_mod.SerialRunner)}
+
+    def make_cancel(orig):
+        def cancel(self_):
+            if state.get('armed') and state['fired'] == 1 and threading.get_ident() == main:
+                f = sys._getframe(1)
+                while f is not None:
+                    if f.f_code.co_filename.startswith(root):
+                        f.f_trace = tracer
+                    f = f.f_back
+                sys.settrace(tracer)
+            return orig(self_)
+        return cancel
 
     def start_spy(self, *a, **k):
         if state['fired'] and state.get('armed') and threading.get_ident() == main and 'SyncManager' not in type(self).__name__ \
@@ -85,11 +110,17 @@ def one_run(kind, inject=None, record=None, second=None, occurrence=1):
             state['late_starts'].append(f'serial run_or_load_task({k.get("task_name") or (a[1] if len(a) > 1 else "?")})')
         return orig_rolt(*a, **k)
 
-    with tempfile.TemporaryDirectory() as d:
+    with tempfile.TemporaryDirectory() as d, tempfile.TemporaryDirectory() as marks_dir:
+        if SLOW:
+            os.environ['C14_MARKS'] = marks_dir
+        else:
+            os.environ.pop('C14_MARKS', None)
         lab = labtech.Lab(storage=d, continue_on_failure=True, runner_backend=kind, max_workers=2)
         outcome = None
         multiprocessing.process.BaseProcess.start = start_spy
         serial_mod.run_or_load_task = rolt_spy
+        for cls, orig in orig_cancels.items():
+            cls.cancel = make_cancel(orig)
         import signal
 
         class Hang(BaseException):
@@ -107,6 +138,22 @@ def one_run(kind, inject=None, record=None, second=None, occurrence=1):
                 outcome = 'return'
             except KeyboardInterrupt:
                 outcome = 'KeyboardInterrupt'
+                if state['fired'] == 1:
+                    # after ONE interrupt run_tasks may only raise once nothing is executing any more (running tasks are drained)
+                    md = os.environ.get('C14_MARKS')
+                    if md:
+                        names = set(os.listdir(md))
+                        und = sorted(n[6:] for n in names if n.startswith('start-') and ('end-' + n[6:]) not in names)
+                        if und:
+                            state['undrained'] = f'task(s) {und} had entered run() and had not finished when run_tasks raised'
+                        else:
+                            # a worker that was started but has not reached run() yet: does anything still execute AFTER the raise?
+                            kids = [ch for ch in multiprocessing.active_children() if 'SyncManager' not in ch.name and 'SyncManager' not in type(ch).__name__]
+                            for ch in kids:
+                                ch.join(2.0)
+                            later = sorted(set(os.listdir(md)) - names) if kids else []
+                            if later:
+                                state['undrained'] = f'task activity {later} AFTER run_tasks had raised: a started worker was neither waited for nor stopped'
             except Hang:
                 outcome = f'no return within {WATCHDOG_S}s (run_tasks kept waiting after the interrupt)'
             except BaseException as ex:     # noqa
@@ -121,6 +168,8 @@ def one_run(kind, inject=None, record=None, second=None, occurrence=1):
                     ch.terminate()
             multiprocessing.process.BaseProcess.start = orig_start
             serial_mod.run_or_load_task = orig_rolt
+            for cls, orig in orig_cancels.items():
+                cls.cancel = orig
         cache_problem = None
         if inject is not None and state['fired'] == 1:
             # single interrupt: whatever was running was allowed to finish and cache; the cache must be consistent
@@ -134,13 +183,17 @@ def one_run(kind, inject=None, record=None, second=None, occurrence=1):
                         break
             except BaseException as ex:   # noqa
                 cache_problem = f'after the interrupted run, a fresh Lab on the same directory raised {type(ex).__name__}: {ex}'[:300]
+    if state.get('undrained'):
+        state['late_starts'] = state['late_starts'] + ['UNDRAINED: ' + state['undrained']]
     return outcome, state['fired'], state['late_starts'], (('[inside save] ' if state.get('in_save') else '') + cache_problem) if cache_problem else None
 
 
 def verdict(kind, p, out, fired, late, cache_problem, second=None):
-    where = f'{p[0]}:{p[1]}' + (f' then a second one at {second[0]}:{second[1]}' if second else '')
+    where = f'{p[0]}:{p[1]} (called from {p[2]})' + (f' then a second one at {second[0]}:{second[1]}' if second else '')
     if fired and out != 'KeyboardInterrupt':
         return f'{kind}: KeyboardInterrupt injected at {where} -> run_tasks ended with `{out}` instead of KeyboardInterrupt'
+    if fired and late and late[0].startswith('UNDRAINED: '):
+        return f'{kind}: single KeyboardInterrupt at {where}: run_tasks raised without draining what was executing: {late[0][11:]}'
     if fired and late:
         return f'{kind}: after the KeyboardInterrupt at {where} a task was still started: {late[0]}'
     if fired and cache_problem:
@@ -167,6 +220,7 @@ def search(kind, tier='quick', limit=None):
     points, counts = points_of(kind)
     tried = 0
     known_sites = []
+    untracked = []
     for p in points[:limit]:
         out, fired, late, cp = one_run(kind, inject=p)
         tried += 1
@@ -178,6 +232,26 @@ def search(kind, tier='quick', limit=None):
         why = verdict(kind, p, out, fired, late, cp)
         if why:
             return dict(reproduced=True, level='api', backend=kind, point=list(p), tried=tried, summary=why, known_sites=known_sites)
+    if kind != 'serial':
+        # the same sweep over the executor's own lines with SLOW tasks, so that worker processes are still executing when
+        # the interrupt lands (is everything that was started drained? is nothing new started?)
+        global SLOW
+        SLOW = True
+        try:
+            spoints, _ = points_of(kind)
+            for p in [q for q in spoints if q[0].endswith('process.py') and q[2] in ('_start_processes', 'submit', 'wait', 'submit_task', '_submit_task', '_consume_result_queue')]:
+                out, fired, late, cp = one_run(kind, inject=p)
+                tried += 1
+                if fired and out == 'KeyboardInterrupt' and late and late[0].startswith('UNDRAINED: ') and p[2] in ('_submit_task', 'submit_task'):
+                    # the window between Process.start() inside executor.submit() and the registration of the returned future in
+                    # ProcessRunner.submit_task: the worker is running but the runner does not track it yet (known finding)
+                    untracked.append(f'{p[0]}:{p[1]} (called from {p[2]})')
+                    continue
+                why = verdict(kind, p, out, fired, late, None)
+                if why:
+                    return dict(reproduced=True, level='api', backend=kind, point=list(p), tried=tried, summary=why + ' [slow tasks]', known_sites=known_sites, untracked=untracked)
+        finally:
+            SLOW = False
     if tier != 'quick':
         # later occurrences of the same line (loop iterations), and a second interrupt after the first
         for p in points:
@@ -188,17 +262,26 @@ def search(kind, tier='quick', limit=None):
                     why = verdict(kind, p, out, fired, late, cp)
                     if why:
                         return dict(reproduced=True, level='api', backend=kind, point=list(p), occurrence=occ, tried=tried, summary=why + f' (occurrence {occ})')
-        step1 = max(1, len(points) // 12)
-        for i in range(0, len(points), step1):
-            later = points[i + 1:]
-            step2 = max(1, len(later) // 8)
-            for q in later[::step2]:
-                out, fired, late, cp = one_run(kind, inject=points[i], second=q)
-                tried += 1
-                if fired and out != 'KeyboardInterrupt':
-                    return dict(reproduced=True, level='api', backend=kind, point=list(points[i]), second=list(q), tried=tried,
-                                summary=verdict(kind, points[i], out, fired, [], None, second=q))
-    return dict(reproduced=False, level='api', backend=kind, points=len(points), tried=tried, known_sites=known_sites)
+    # double interrupts: the second one is injected at a line boundary executed AFTER the first (so the handler's own lines,
+    # cancel(), the drain loop and stop() are covered); first points sampled, second points sampled among what ran afterwards
+    n_first, n_second = (8, 6) if tier == 'quick' else (30, 16)
+    step1 = max(1, len(points) // n_first)
+    for p1 in points[::step1]:
+        rec = []
+        one_run(kind, inject=p1, record=rec)
+        after = []
+        if p1 in rec:
+            for q in rec[rec.index(p1) + 1:]:
+                if q not in after:
+                    after.append(q)
+        step2 = max(1, len(after) // n_second)
+        for q in after[::step2]:
+            out, fired, late, cp = one_run(kind, inject=p1, second=q)
+            tried += 1
+            if fired == 2 and out != 'KeyboardInterrupt':
+                return dict(reproduced=True, level='api', backend=kind, point=list(p1), second=list(q), tried=tried,
+                            summary=verdict(kind, p1, out, fired, [], None, second=q), known_sites=known_sites)
+    return dict(reproduced=False, level='api', backend=kind, points=len(points), tried=tried, known_sites=known_sites, untracked=untracked)
 
 
 def main():
@@ -222,6 +305,11 @@ def main():
         for kind in kinds:
             res = search(kind, a.tier if not a.obligation else 'quick', limit=(40 if kind == 'spawn' else None))
             runs.append(f'{kind}: {res.get("tried")} injected runs over {res.get("points", "?")} line boundaries')
+            if res.get('untracked'):
+                known.append(dict(id=f'c14:undrained-before-tracking/{kind}',
+                                  summary=f'{kind} backend: a single KeyboardInterrupt that lands after executor.submit() has started the worker process and before '
+                                          f'ProcessRunner.submit_task has stored the returned future ({", ".join(res["untracked"][:3])}) leaves a running worker the runner does not '
+                                          f'track: run_tasks raises KeyboardInterrupt without waiting for it (the worker finishes and caches its result on its own afterwards)'))
             if res.get('known_sites'):
                 known.append(dict(id=f'c14:interrupt-inside-save/{kind}',
                                   summary=f'{kind} backend: a KeyboardInterrupt delivered while BaseCache.save runs on the calling thread (at {len(res["known_sites"])} line boundaries, '
